@@ -33,7 +33,7 @@ EigIsland(c) ==
          x0 |-> FullRankCores(c.dims, c.r0, c.seed + 3, c.cplx /\ c.seed # 2),
          xfull |-> FullRankCores(c.dims, MaxRanks(c.dims), c.seed + 2, c.cplx /\ c.seed # 2)]
 
-EigDims == IF Level = 1 THEN {<<2, 2>>, <<2, 2, 2>>, <<3, 2>>, <<2, 3, 2>>} ELSE
+EigDims == IF Level = 1 THEN {<<2, 2>>, <<2, 2, 2>>, <<3, 2>>, <<2, 3, 2>>, <<3>>, <<1, 2, 2>>, <<2, 1, 2>>} ELSE {<<3>>, <<2, 2, 1>>, <<1, 3, 2>>} \cup
            {<<2>>, <<2, 2>>, <<2, 2, 2>>, <<3, 2>>, <<2, 3, 2>>, <<2, 2, 2, 2>>, <<3, 3>>, <<2, 2, 3>>}
 EigConfigs ==
     UNION {{[dims |-> dims, rg |-> rg, kind |-> kind, gen |-> gen, cplx |-> cplx, seed |-> seed, r0 |-> r0] :
